@@ -1,6 +1,7 @@
 CONSTANTS
   MaxJunk = 3
   Fixed = FALSE
+  PrefixJSONAccepted = FALSE
 SPECIFICATION Spec
 INVARIANT Correct
 PROPERTY Terminates
